@@ -35,10 +35,15 @@ class Ref:
         self.rows = []            # (dict col->coef, type, b)
         self.node = {}            # (node, t) -> dict col->coef
         self.unsupported = None
+        self.inject = {}          # (node, t) -> fixed injection (constants of pinned unit commitment)
+        self.offset = 0.0         # constant cost not attached to a variable
+        self.uc = spec.get("_uc", {})   # asset name -> pinned on pattern (list of 0/1)
         for a in spec["assets"]:
             self.add(a)
+        for (n, t) in self.inject:
+            self.node.setdefault((n, t), {})
         for (n, t), co in sorted(self.node.items()):
-            self.rows.append((co, "N", 0.0))
+            self.rows.append((co, "N", -self.inject.get((n, t), 0.0)))
 
     # ------------------------------------------------------------ helpers
     def var(self, key, lo, hi, cost, boolean=False):
@@ -111,7 +116,77 @@ class Ref:
             return self.add_storage(a)
         if t == "orderbook":
             return self.add_orderbook(a)
+        if t in ("plant", "chp") and a["name"] in self.uc:
+            return self.add_plant(a, self.uc[a["name"]])
         self.unsupported = t
+
+    def add_plant(self, a, on):
+        """Plant / CHP with a *given* on/off pattern (list over all T steps): an LP.
+
+        virtual output v = power + cf*heat; off: v = 0; on: min*dt <= v <= max*dt; |v_t - v_(t-1)| <=
+        ramp*dt (t = 0 against last_dispatch*dt); heat <= share*power; cost: (price+extra)*v discounted,
+        running cost*dt per on-step, start cost per off->on transition; fuel node draws
+        v/eff + consumption_if_on*dt*on + start_fuel*start.  No start/shutdown profiles here.
+        """
+        if a.get("start") is not None or a.get("end") is not None:
+            self.unsupported = "plant window"
+            return
+        T = self.T
+        disc = self.disc(a)
+        chp = a["type"] == "chp"
+        nodes = a["nodes"]
+        n_p = nodes[0]
+        n_h = nodes[1] if chp else None
+        n_f = (nodes[2] if len(nodes) > 2 else None) if chp else (nodes[1] if len(nodes) > 1 else None)
+        price = self.prices[a["price"]] if a.get("price") else np.zeros(T)
+        ex = self.series(a.get("extra_costs", 0.0), default=0.0)
+        lo = self.series(a.get("min_cap", 0.0))
+        hi = self.series(a.get("max_cap", 0.0))
+        cf = self.series(a.get("conversion_factor_power_heat", 1.0), default=1.0) if chp else None
+        share = self.series(a.get("max_share_heat"), default=1.0) if (chp and a.get("max_share_heat") is not None) else None
+        run_c = self.series(a.get("running_costs", 0.0), default=0.0)
+        st_c = self.series(a.get("start_costs", 0.0), default=0.0)
+        eff = self.series(a.get("fuel_efficiency", 1.0), default=1.0)
+        cons = self.series(a.get("consumption_if_on", 0.0), default=0.0)
+        st_f = self.series(a.get("start_fuel", 0.0), default=0.0)
+        ramp = a.get("ramp")
+        was_on = a.get("time_already_running", 0) > 0
+        P, Hh = {}, {}
+        prev = None
+        for t in range(T):
+            o = int(on[t])
+            start = 1 if (o == 1 and ((t == 0 and not was_on) or (t > 0 and int(on[t - 1]) == 0))) else 0
+            cst = disc[t] * (price[t] + ex[t])
+            P[t] = self.var((a["name"], "pw", t), 0.0, hi[t] * self.dt[t] * o, cst)
+            co = {P[t]: 1.0}
+            self.at_node(n_p, t, P[t], 1.0)
+            if chp:
+                ub = (share[t] * hi[t] if share is not None else hi[t] / cf[t]) * self.dt[t] * o
+                Hh[t] = self.var((a["name"], "ht", t), 0.0, ub, cst * cf[t])
+                co[Hh[t]] = cf[t]
+                self.at_node(n_h, t, Hh[t], 1.0)
+                if share is not None:
+                    self.rows.append(({Hh[t]: 1.0, P[t]: -share[t]}, "U", 0.0))
+            self.rows.append((dict(co), "L", lo[t] * self.dt[t] * o))
+            self.rows.append((dict(co), "U", hi[t] * self.dt[t] * o))
+            if ramp is not None:
+                r = ramp * self.dt[0]
+                if prev is None:
+                    last = a.get("last_dispatch", 0.0) * self.dt[0]
+                    self.rows.append((dict(co), "U", last + r))
+                    self.rows.append((dict(co), "L", last - r))
+                else:
+                    d = dict(co)
+                    for k, v in prev.items():
+                        d[k] = d.get(k, 0.0) - v
+                    self.rows.append((d, "U", r))
+                    self.rows.append((dict(d), "L", -r))
+            prev = co
+            self.offset += run_c[t] * self.dt[t] * o + st_c[t] * start   # (EAO does not discount these)
+            if n_f is not None:
+                for k, v in co.items():
+                    self.at_node(n_f, t, k, -v / eff[t])
+                self.inject[(n_f, t)] = self.inject.get((n_f, t), 0.0) - cons[t] * self.dt[t] * o - st_f[t] * start
 
     def add_contract(self, a):
         act = self.active(a)
